@@ -234,7 +234,16 @@ class MibCompiler(object):
                 try:
                     fileInfo, fileData = source.getData(mibname)
 
-                    for mibTree in self._parser.parse(fileData):
+                    mibTrees = self._parser.parse(fileData)
+
+                    if not mibTrees:
+                        # nothing but white space or comments in there:
+                        # as good as not found, keep looking
+                        debug.logger & debug.flagCompiler and debug.logger(
+                            'no MIB module in %s found at %s' % (mibname, source))
+                        continue
+
+                    for mibTree in mibTrees:
                         mibInfo, symbolTable = self._symbolgen.genCode(
                             mibTree, symbolTableMap
                         )
